@@ -5,6 +5,7 @@ import (
 	"sync"
 
 	"github.com/feichai0017/NoKV/kv"
+	"github.com/feichai0017/NoKV/verifhook"
 )
 
 // Manager provides hashed latches on keys to serialize conflicting
@@ -54,6 +55,7 @@ body:
 	}
 	sort.Ints(indices)
 	for _, idx := range indices {
+		verifhook.BeforeLock(&m.stripes[idx])
 		m.stripes[idx].Lock()
 	}
 	return &Guard{manager: m, slots: indices}
